@@ -356,7 +356,7 @@ def obligations(tier):
             for template in (["busy"] if not T else ["busy", "fresh"]):
               for rep in ([False, True] if ft in REPEAT and (T or ft not in HEAVY_TWICE) else [False]):
                 prep, run = frame_ob(role, template, ft, rep)
-                obs.append(Ob("C05.frame.%s.%s.0x%02x%s" % (role, template, ft, ".twice" if rep else ""), run, cm.conn_shims, enc + [Q + "_handle_*_frame (type 0x%02x)" % ft], bounds="1-RTT packet with one frame of type 0x%02x (twice for state-sharing types, or followed by PING): every varint field over [0, 2^62) (8-byte encoding), byte fields of length 0/2 (CID 0/1/8/20/21) with symbolic content and declared length honest / one too long / 2^62-1, truncated at 3 cut points; delivered to a %s %s endpoint; then transmit/timer/event calls until termination" % (ft, template, role), prepare=prep, budget_s=1500 if T else 250, max_decisions=1500, stubs=["CryptoPair -> transparent", "tls.Context -> nondeterministic stub"]))
+                obs.append(Ob("C05.frame.%s.%s.0x%02x%s" % (role, template, ft, ".twice" if rep else ""), run, cm.conn_shims, enc + [Q + "_handle_*_frame (type 0x%02x)" % ft], bounds="1-RTT packet with one frame of type 0x%02x (twice for state-sharing types, or followed by PING): every varint field over [0, 2^62) (8-byte encoding), byte fields of length 0/2 (CID 0/1/8/20/21) with symbolic content and declared length honest / one too long / 2^62-1, truncated at 3 cut points; delivered to a %s %s endpoint; then transmit/timer/event calls until termination" % (ft, template, role), prepare=prep, budget_s=1500 if T else 420, max_decisions=1500, stubs=["CryptoPair -> transparent", "tls.Context -> nondeterministic stub"]))
     nh = 30 if T else 29
     for state in ("server_fresh", "server_after_bad_initial", "server_connected", "server_closing", "client_firstflight", "client_connected", "client_closing"):
         for kind in ("long", "short"):
